@@ -11,7 +11,7 @@ ID = "C20"
 THEOREM = ("Ufo2ft.C20.C20_partial / C20_unscripted_everywhere / C20_languages / C20_kern_keys_partial / C20_dflt / "
            "C20_model_failures_shapeA_partial / C20_false_as_stated / C20_quirk_witness / C20_rejects / C20_register / "
            "C20_ds_extra_complete / C20_ds_extra / C20_ds_variable_same / C20_ds_extra_paths / C20_ds_alternate_inherits / "
-           "C20_ds_classify / C20_merge_disjoint / C20_merge_cover")
+           "C20_ds_classify / C20_merge_disjoint / C20_merge_cover / C20_var_pairs")
 N = {"quick": 1200, "thorough": 12000}
 RULE = ("fonts: 1-4 scripts drawn from latn/grek/cyrl/hebr/arab/deva/beng/khmr/mymr/nko/hira+kana/thai plus common glyphs and "
         "combining marks; kerning inside scripts, across scripts, with common glyphs and with marks (some through groups); "
@@ -45,7 +45,16 @@ RULE = ("fonts: 1-4 scripts drawn from latn/grek/cyrl/hebr/arab/deva/beng/khmr/m
         "kerningPerScript dicts (max(300, n/4) items: 4-8 scripts, chains of two-script buckets / random 1-3-script buckets / stars, "
         "single-script buckets, shuffled order, now and then an empty key) against the Lean model, Spec.holdsMerge on the observed "
         "result. non-trivial (cross-script) = kerning and a mark feature compiled and >= 3 distinct buckets (fonts); >= 3 multi-script "
-        "buckets of which some were merged (function level).")
+        "buckets of which some were merged (function level). "
+        "uneven-kerning stream (harness/lib_C20.py gen_ds_uneven, generated LAST so the other streams keep their cases; max(50, n/20) "
+        "designspaces + 3 corpus cases): a designspace as above whose masters do NOT carry the same kerning pairs - per script the "
+        "pairs are in all masters / only in non-default masters (one or several) / only in the last master / only in the default "
+        "master; every script kerned in some master; languagesystems mostly DFLT + all scripts; built as a variable font "
+        "(compileVariableTTF/CFF2, 4/5) or per master (1/5); observed: arguments and result of KernFeatureWriter."
+        "getVariableKerningPairs (wrapper: per source layerName-is-None and kerning keys; result pairs with classes mapped back to "
+        "group names) against the Lean model (op 'varpairs', also for every variable build of the designspace stream), and the "
+        "compiled ScriptList against Spec.holdsDs with the pairs of EVERY master (variable font) or of the master itself "
+        "(per-master build). non-trivial (varpairs) = the full sources do not all have the same kerning keys.")
 ASSUMED = [
     "feaLib parser/builder beyond the modelled registration logic (set_script/set_language/add_lookup_to_feature_/"
     "add_language_system/makeTable ScriptList) - measured by the 'build' stream on every generated font",
@@ -56,6 +65,10 @@ ASSUMED = [
     "designspace stream: an unencoded rule alternate belongs to the script(s) of the glyph(s) the rules replace by it (one "
     "step); generated kerning 'acts on' a script when some kerning pair has both glyphs in that script and neither is "
     "common/inherited (pairs with a common glyph on one side are not counted - see LEVEL_NOTE)",
+    "uneven-kerning stream: a variable font's generated kerning 'acts on' a script when some master has a kerning pair with both "
+    "glyphs in that script (the variable font covers every master's location); sparse layer sources are not generated (the "
+    "model skips them as the code does); kerning keys naming missing glyphs/groups and all-zero class-to-class pairs (which "
+    "the code drops after collation) are not generated",
     "cross-script stream: generated kerning 'acts on' a script when some kerning pair between two script-specific glyphs whose "
     "scripts all run in one horizontal direction has a glyph of that script on either side (mixed-direction pairs are dropped by "
     "the writer by design and are not counted); directions come from fontTools.unicodedata",
@@ -394,6 +407,8 @@ def gen(rng, n, mode):
         yield c
     for c in lib_C20.corpus_xfont():
         yield c
+    for c in lib_C20.corpus_ds_uneven():
+        yield c
     for i in range(n):
         yield gen_font(rng, mode)
     for i in range(max(40, n // 12)):
@@ -405,6 +420,9 @@ def gen(rng, n, mode):
     for i in range(m):
         yield {"kind": "register", "items": [gen_register(rng, mode) for _ in range(150)]}
     yield {"kind": "addrefs", "items": [gen_addrefs(rng) for _ in range(200)]}
+    # last, so that the cases of the earlier streams are the same as before for a given seed
+    for i in range(max(50, n // 20)):
+        yield lib_C20.gen_ds_uneven(rng, mode, BASES, MARKS, OTTAGS)
 
 
 # ------------------------------------------------------------------------------------------------ observation
@@ -765,6 +783,8 @@ def agree(req, rep):
         return m == o
     if req["op"] in ("extrasubs", "classify"):
         return lib_C20.canon_map(m) == o
+    if req["op"] == "varpairs":
+        return sorted(map(list, m)) == sorted(map(list, o))
     if req["op"] in ("ds", "xkern"):
         return True          # predicate-only streams
     if req["op"] == "merge":
@@ -868,7 +888,11 @@ LEVEL_TEXT = ("Proved for all inputs (Lean, no size bound) about the model of fe
               "buckets are pairwise disjoint - the model's fuel for `while merged`, the number of buckets, always suffices since a "
               "merging pass shortens the list - (C20_merge_disjoint) and every non-empty input bucket key is contained in one merged "
               "bucket (C20_merge_cover), so a script's pairs cannot be re-assigned to another bucket leaving its own lookup empty; "
-              "the model (buckets and re-assigned pairs) is compared with the code on synthetic dicts in every run.")
+              "the model (buckets and re-assigned pairs) is compared with the code on synthetic dicts in every run. Variable builds "
+              "(KernFeatureWriter.getVariableKerningPairs, the collation loop and the glyph/class filter modelled; proved for all "
+              "source lists): the pairs lookups are built from contain every kerning pair of every full (non-layer) source, default "
+              "or not, whose sides exist, and only such pairs (C20_var_pairs), so a script kerned only in a non-default master "
+              "keeps its kerning lookup and script registration; compared with the code on every variable build.")
 LEVEL_NOTE = ("The unconditional property is false of the unchanged tree (known finding, two shapes, recognised by "
               "classify_failure from the Lean predicates shapeA/shapeB evaluated on the observed table; any other failing entry - "
               "a declared language system lacking a generated feature, DFLT lacking one while declared, a declared language "
@@ -896,4 +920,10 @@ LEVEL_NOTE = ("The unconditional property is false of the unchanged tree (known 
               "ScriptList (splitKerning, lookup building, removal of empty lookups) is not modelled - the re-assignment half of "
               "mergeScripts is modelled and compared but only holdsMerge (disjoint, input keys and pairs inside one bucket, pairs a "
               "permutation) is evaluated on it, not proved of it. Of the dist-enabled scripts only Nkoo (RTL pool) is generated in this stream, class kerning is not "
-              "(both are in the main font stream, with at most one cross-script pair).")
+              "(both are in the main font stream, with at most one cross-script pair). "
+              "Uneven-kerning stream: only the pair universe of getVariableKerningPairs is modelled and proved (values, "
+              "quantisation, VariableScalar collapsing, the dropping of all-zero class pairs and the path from pairs to "
+              "script-split lookups are not); that a script kerned in SOME master exposes kern/dist in the variable font wherever a "
+              "generated mark feature puts it in the ScriptList is predicate-only (Spec.holdsDs on the observed ScriptList, agree = "
+              "True). Per-master builds are checked against each master's own pairs: a master without Greek kerning legitimately "
+              "has no Greek kern. Sparse (layer) sources and vf-incompat builds with uneven kerning are not generated.")
